@@ -58,11 +58,14 @@ CHECKS = {
        "frame-stack reference preprocessor, for every well-formed directive sequence of any length and nesting depth and every initial macro "
        "table: a text line lies in a skip region iff the reference finds it inactive; #define/#undef take effect on exactly the reference's "
        "active lines; final macro tables are equal; no region is left open. Conditions are trees with C semantics. The machine model is tied to "
-       "preprocess_file by differential execution (exhaustive small scope + random); macro expansion (object-like, nasty bodies; simple "
-       "function-like calls) and the indexing of declarations per region are checked against a reference preprocessor.",
+       "preprocess_file by differential execution (exhaustive small scope + random). Macro uses: for every classification of word characters, every "
+       "table and every line written as words and separators, the substitution scan replaces exactly the words found in the table by their values, "
+       "character for character, and leaves a line that does not spell the name as a word of its own unchanged (C08/Expand.v: one macro for an object-like "
+       "macro, parameter/argument pairs for the body of a function-like one; run against preprocess_file on every run). The scan of call arguments "
+       "(nested parentheses, literals) and the indexing of declarations per region are checked against a reference preprocessor.",
   note="Trusted: Coq kernel, vm_compute, differential harness, reference preprocessor. Hypotheses: well-formed conditional structure "
-       "(refuted without it), names used as values have integer bodies, no redefinition. Condition text rewriting and macro substitution are "
-       "not modelled in Coq (differential only). Known finding: function-like macro called twice per line.",
+       "(refuted without it), names used as values have integer bodies, no redefinition. Condition text rewriting and the "
+       "argument scan of function-like macro calls are not modelled in Coq (differential only); the whole-word substitution is (C08/Expand.v, ASCII word characters in the differential).",
   technique="Rocq proof (simulation/refinement between two state machines, invariant by induction over directive sequences) + exhaustive small-scope differential",
   design="4/C08"),
  "C17": dict(
